@@ -108,6 +108,15 @@ def cases(tier, seed):
     T = 120 if tier == "quick" else 600
     cs = []
     axes = ((seed % 3,) if tier == "quick" else (0, 1, 2))
+    if tier == "quick":
+        # the other two axes: defining configuration, rate and one forward / one backward step each
+        for axis in (0, 1, 2):
+            if axis in axes:
+                continue
+            cs.append(Case(f"initial/ax{axis}", initial, dict(axis=axis, seed=seed), timeout=T, sentinel=False))
+            cs.append(Case(f"rate/ax{axis}/RB", rate, dict(axis=axis, first="RB", seed=seed), timeout=T, hard=T * 10))
+            cs.append(Case(f"step/ax{axis}/prevQ1/wrap0", step, dict(Qp=1, m=0, axis=axis, seed=seed), timeout=T, hard=T * 10, sentinel=False))
+            cs.append(Case(f"step/ax{axis}/prevQ1/wrap-1", step, dict(Qp=1, m=-1, axis=axis, seed=seed), timeout=T, hard=T * 10, sentinel=False))
     for axis in axes:
         cs.append(Case(f"initial/ax{axis}", initial, dict(axis=axis, seed=seed), timeout=T, sentinel=False))
         for first in ("RB", "F"):
